@@ -268,4 +268,80 @@ func legRobust(c *Ctx) {
 		c.Add(cs)
 	}
 	c.Gate("at least a fifth of the mutated patterns compile", compiled*5 >= n)
+
+	// every loop opcode in every direction of travel: character loops (one / set / not-one / any) x greedy, lazy,
+	// counted, atomic, inside lookbehind, negative lookbehind, lookahead, plain and under RightToLeft, on every short
+	// text over the pattern's letters, alone and with text on the far side (the budget of a loop must be the number of
+	// characters in ITS direction, whatever lies on the other side), from every start offset
+	atoms := []string{"a", "[ab]", "[^c]", ".", "(?:ab)", "(a)"}
+	quants := []string{"*", "+", "{1,3}", "*?", "+?", "{0,2}?", "{2}"}
+	frames := []struct {
+		pat string
+		rtl bool
+	}{{"(?<=c%s)d", false}, {"(?<!c%s)d", false}, {"(?<=%sc)d", false}, {"c%sd", true}, {"d(?=%sc)", false}, {"c%sd", false}, {"(?<=c(?>%s))d", false}, {"%s", true}}
+	var texts [][]rune
+	var rec func(cur []rune)
+	rec = func(cur []rune) {
+		texts = append(texts, append([]rune{}, cur...))
+		if len(cur) == 4 {
+			return
+		}
+		for _, ch := range []rune("abcd") {
+			rec(append(append([]rune{}, cur...), ch))
+		}
+	}
+	rec(nil)
+	loopCalls := 0
+	for _, at := range atoms {
+		for _, q := range quants {
+			for _, fr := range frames {
+				pat := fmt.Sprintf(fr.pat, at+q)
+				var ro regexp2.RegexOptions
+				if fr.rtl {
+					ro = regexp2.RightToLeft
+				}
+				re, err := regexp2.Compile(pat, ro)
+				if err != nil {
+					continue
+				}
+				re.MatchTimeout = 200 * time.Millisecond
+				var bad []string
+				for ti, t := range texts {
+					if !c.Thorough && ti%3 != c.Rng.Intn(3) {
+						continue
+					}
+					for _, tail := range []string{"", "xxxxx"} {
+						for _, head := range []string{"", "xx"} {
+							in := append(append([]rune(head), t...), []rune(tail)...)
+							for _, st := range []int{-1, len(head), len(head) + len(t)} {
+								loopCalls++
+								guarded(fmt.Sprintf("FindRunesMatchStartingAt(%q, %d)", string(in), st), &bad, false, func() error {
+									var m *regexp2.Match
+									var err error
+									if st < 0 {
+										m, err = re.FindRunesMatch(in)
+									} else {
+										m, err = re.FindRunesMatchStartingAt(in, st)
+									}
+									for k := 0; m != nil && err == nil && k < len(in)+2; k++ {
+										m, err = re.FindNextMatch(m)
+									}
+									return err
+								})
+							}
+						}
+					}
+					if len(bad) > 0 {
+						break
+					}
+				}
+				cs := &Case{Desc: fmt.Sprintf("loop-direction pattern %+q options=%#x", pat, int(ro)), Nontrivial: true, Key: pat + fmt.Sprint(ro), Class: "loop-direction"}
+				if len(bad) > 0 {
+					cs.Direct = strings.Join(bad, " | ")
+				}
+				c.Add(cs)
+			}
+		}
+	}
+	c.Gate("loop-direction stress ran", loopCalls > 50000)
 }
